@@ -4,6 +4,7 @@ package main
 
 import (
 	"fmt"
+	"os"
 	"go/constant"
 	"go/token"
 	"go/types"
@@ -127,8 +128,31 @@ func (s *State) assume(t *Term) {
 	if s.hypKeys[k] {
 		return
 	}
+	// equalities between abstract points with a representation atom on one side act as rewrite rules
+	if t.Op == "=" && len(t.Args) == 2 && t.Args[0].Sort == SPt {
+		a, b := t.Args[0], t.Args[1]
+		if !(a.Op == "app" && a.Name == "pt") && b.Op == "app" && b.Name == "pt" {
+			a, b = b, a
+		}
+		if a.Op == "app" && a.Name == "pt" && !occurs(a, b) {
+			s.addSubst(a, b)
+		}
+	}
 	s.hypKeys[k] = true
 	s.hyps = append(s.hyps, t)
+}
+
+// addSubst records the rewrite rule lhs -> rhs and keeps the rule set resolved.
+func (s *State) addSubst(lhs, rhs *Term) {
+	rhs = substitute(rhs, s.subst)
+	one := map[string]*Term{lhs.Key(): rhs}
+	for k, v := range s.subst {
+		nv := substitute(v, one)
+		if nv != v {
+			s.subst[k] = nv
+		}
+	}
+	s.subst[lhs.Key()] = rhs
 }
 
 // infeasible: cheap syntactic check
@@ -467,6 +491,9 @@ func (e *Engine) addObligation(st *State, fr *Frame, kind, label string, goal *T
 	}
 	if o.Result == nil {
 		o.Hyps = append([]*Term{}, st.hyps...)
+	}
+	if dbg := os.Getenv("VCGO_DEBUG_OBL"); dbg != "" && strings.Contains(name, dbg) {
+		fmt.Fprintf(os.Stderr, "[obl] %s\n   goal: %s\n", name, trunc(goal.Key(), 600))
 	}
 	e.obls = append(e.obls, o)
 }
